@@ -120,6 +120,19 @@ type StrictHTTPClient struct {
 	client *http.Client
 }
 
+// WithRedirectCheck returns a copy of the client that, before following a redirect, applies the given check
+// in addition to the default redirect policy (see http.Client.CheckRedirect for the arguments).
+func (s *StrictHTTPClient) WithRedirectCheck(check func(req *http.Request, via []*http.Request) error) *StrictHTTPClient {
+	httpClient := *s.client
+	httpClient.CheckRedirect = func(req *http.Request, via []*http.Request) error {
+		if err := checkRedirect(req, via); err != nil {
+			return err
+		}
+		return check(req, via)
+	}
+	return &StrictHTTPClient{client: &httpClient}
+}
+
 func (s *StrictHTTPClient) Do(req *http.Request) (*http.Response, error) {
 	if StrictMode && req.URL.Scheme != "https" {
 		return nil, errors.New("strictmode is enabled, but request is not over HTTPS")
